@@ -4,6 +4,7 @@ package sandbox
 import (
 	"context"
 	"fmt"
+	"io"
 	"log/slog"
 	"os"
 
@@ -33,6 +34,7 @@ type Sandbox struct {
 	rc       *regclient.RegClient
 	throttle *pqueue.Queue[struct{}]
 	dryRun   bool
+	closers  []io.Closer // resources opened by the script that are released when the sandbox is closed
 }
 
 // LuaMod defines a mod to add to Lua's sandbox
@@ -147,6 +149,11 @@ func (s *Sandbox) RunScript(script string) (err error) {
 
 // Close is use to stop the sandbox
 func (s *Sandbox) Close() {
+	// blob readers hold a connection and a request slot of their registry until closed
+	for _, c := range s.closers {
+		_ = c.Close()
+	}
+	s.closers = nil
 	s.ls.Close()
 }
 
